@@ -177,7 +177,8 @@ type acct struct {
 
 const nPoor = 4
 
-var poorBalances = [nPoor]int64{50_000, 120_000, 1_500_000, 30_000}
+// a plain transfer costs 21000*price = 189000..252000 for these accounts (price = index+1 = 9..12)
+var poorBalances = [nPoor]int64{500_000, 1_200_000, 15_000_000, 300_000}
 
 func poorKey(i int) *ecdsa.PrivateKey {
 	d := make([]byte, 32)
@@ -350,7 +351,10 @@ func (s *sim) genTx() *entry {
 	} else {
 		a = s.accts[c.Intn("from", chainkit.NClients)]
 	}
-	f := &txFields{Price: big.NewInt(int64(1 + c.Intn("price", 4))), Value: new(big.Int)}
+	// prices never tie between accounts: the worker orders pending transactions by price and
+	// breaks ties in map-iteration order (types.NewTransactionsByPriceAndNonce), which would make
+	// one seed more than one execution
+	f := &txFields{Price: big.NewInt(int64(16*c.Intn("price", 4) + a.idx + 1)), Value: new(big.Int)}
 	kind := kTransfer
 	what := ""
 	var staked *big.Int
@@ -369,7 +373,8 @@ func (s *sim) genTx() *entry {
 		f.To = &to
 		if a.poor {
 			// amounts in the range of the balance, so that one transfer fits and two may not
-			f.Value = big.NewInt(int64(c.Intn("poor-amt", 8)) * 10_000)
+			f.Value = big.NewInt(poorBalances[a.idx-chainkit.NClients] * int64(c.Intn("poor-amt", 4)) / 4)
+			f.Price = big.NewInt(int64(a.idx + 1))
 		} else {
 			f.Value = big.NewInt(int64(1 + c.Intn("amt", 1000)))
 			if c.Chance("big-amt", 1, 10) {
@@ -477,7 +482,7 @@ func (s *sim) genTx() *entry {
 		case 2: // same nonce as the previous transaction of this account, higher price (replacement)
 			if a.next > 0 {
 				f.Nonce = a.next - 1
-				f.Price = big.NewInt(int64(6 + c.Intn("bump", 4)))
+				f.Price = big.NewInt(int64(16*(6+c.Intn("bump", 4)) + a.idx + 1))
 				what += " replacement"
 			} else {
 				a.next++
